@@ -406,6 +406,27 @@ def rule_R4(ctx: Ctx) -> None:
         ctx.judge(sinit.func, ok, {"super_init_calls": len(sup), "on_every_non_raising_path": ok},
                   "SolvedMaze.__init__ calls super().__init__ (and thereby __post_init__) on every path that returns normally",
                   "a path constructs a SolvedMaze without running the endpoint bounds check")
+        # ... and the ValueError of that check leaves the constructor: the delegating call is not inside a `try` whose handler swallows it
+        from sa.fold import Evaluator as _Ev
+
+        par = X.parents_map(sinit.func.node)
+        swallowed = []
+        for c_ in ast.walk(sinit.func.node):
+            if not (isinstance(c_, ast.Call) and ast.unparse(c_.func) == "super().__init__"):
+                continue
+            n_, child = par.get(c_), c_
+            while n_ is not None:
+                if isinstance(n_, ast.Try) and any(child is b_ or any(child is x_ for x_ in ast.walk(b_)) for b_ in n_.body):
+                    for h_ in n_.handlers:
+                        names = [ast.unparse(t_) for t_ in ast.walk(h_.type) if isinstance(t_, (ast.Name, ast.Attribute))] if h_.type is not None else ["BaseException"]
+                        catches = any(_Ev._exc_matches("ValueError", nm_) for nm_ in names)
+                        reraises = any(isinstance(x_, ast.Raise) for x_ in ast.walk(h_))
+                        if catches and not reraises:
+                            swallowed.append(ast.unparse(h_.type)[:80] if h_.type is not None else "bare except")
+                child, n_ = n_, par.get(n_)
+        ctx.judge(sinit.func, not swallowed, {"handlers_that_swallow_the_bounds_error": swallowed},
+                  "the ValueError raised by the endpoint bounds check propagates out of SolvedMaze.__init__",
+                  "a solved maze whose first or last cell lies outside the grid is constructed without an error")
     else:
         ctx.judge(s, sinit.kind == "generated", {"effective___init__": sinit.to_json()},
                   "SolvedMaze.__init__ is explicit-and-delegating or generated")
@@ -445,7 +466,7 @@ def rule_R5(ctx: Ctx) -> None:
 RULES = [
     Rule("C09.R1", rule_R1, floor=3, doc="effective __eq__ total, same-kind, exactly the compared fields"),
     Rule("C09.R2", rule_R2_R3, floor=4, doc="effective __hash__ exists and is total; reads subset of compared fields (R3)"),
-    Rule("C09.R4", rule_R4, floor=9, doc="two-sided endpoint bounds; SolvedMaze.__init__ reaches the check"),
+    Rule("C09.R4", rule_R4, floor=10, doc="two-sided endpoint bounds; SolvedMaze.__init__ reaches the check"),
     Rule("C09.R5", rule_R5, floor=1, doc="dataset equality"),
 ]
 
